@@ -149,6 +149,14 @@ def scenario(workdir, compress, k, N1=4, N2=6, extra_rate=None, interrupt_at=Non
         for key in ('effective_error', 'success', 'codespace'):
             if len(res[key]) != N2:
                 return 'simulation %d: list %r has length %d, expected %d' % (i, key, len(res[key]), N2), crashed
+    owner = {}
+    for i, rec in enumerate(data):          # every trial carries a unique (pid, serial) tag: none may appear twice, none in two simulations
+        for row in rec['results']['effective_error']:
+            t = tuple(row)
+            if t in owner:
+                return ('trial %s appears twice in simulation %d' % (t, i)) if owner[t] == i else ('trial %s of simulation %d (error rate %r) was also adopted by simulation %d (error rate %r)'
+                                                                                               % (t, owner[t], data[owner[t]]['inputs'].get('error_rate'), i, rec['inputs'].get('error_rate'))), crashed
+            owner[t] = i
     if snap is not None:
         for i, srec in enumerate(snap):
             match = [r for r in data if r['inputs'] == srec['inputs']]
